@@ -796,6 +796,23 @@ _mod_tree.frame = _mod_tree_frame
 _VIA = {"Store.create": ("Store.fetchShare", "Store.add", "share"),
         "Store.createNode": ("Store.fetchNode", "Store.addNode", "node")}
 
+@specfunc
+def has_empty_level(E, name, upto_last):
+    """some level of the path (all but the last one if upto_last) is empty: the region of the known-finding
+    proposal C18-rejected-empty-segment-leaves-nodes (findings/c18_proposed_known_findings.json)"""
+    name = _concrete(name)
+    if isinstance(name, str):
+        lv = name.strip('.').split('.')
+        return '' in (lv[:-1] if upto_last else lv)
+    nm = zstr(name)
+    j = _bv("j", E)
+    return Sym(z3.Exists([j], z3.And(j >= 0, j < NL(nm) - (1 if upto_last else 0), LV(nm, j) == z3.StringVal(""))), "bool")
+
+
+has_empty_level.native = lambda name, upto_last: '' in (_n_levels(name)[:-1] if upto_last else _n_levels(name))
+REGION_ADD = {"C18-rejected-empty-segment-leaves-nodes": "has_empty_level(share.name, True)"}
+REGION_ADDNODE = {"C18-rejected-empty-segment-leaves-nodes": "has_empty_level(name, False)"}
+
 P_ADD = dict(self=Ref("Store"), share=Ref("Share"))
 GROW_LOOP = {0: dict(inv=["grow_inv('%s', self, levels, node, depth, _i)" % p_ for p_ in GROW_PARTS],
                      havoc=lambda E: _unsign(E, "node"))}
@@ -812,14 +829,15 @@ def _unsign(E, name):
 
 
 contract(FS, "Store.add", "C18", params=P_ADD, setup=_setup_mut, externals=EXT, loops=GROW_LOOP,
-         inline={"Share.changeStore"},
+         inline={"Share.changeStore"}, findings=REGION_ADD,
          requires=["wf(self)"], modifies=["share.store", _mod_tree],
          ensures=["wf(self)"] + ["added_share('%s', self, share, old(tree_snap(self)))" % p_ for p_ in ADDED_PARTS] +
                  [LABELS, "result is share",
                   "share.store is self"],
-         raises={"ValueError": [UNCHANGED, "share.store is old(share.store)"]}, returns=Ref("Share"))
+         raises={"ValueError": [UNCHANGED, "id(share.store) == old(id(share.store))"]}, returns=Ref("Share"))
 
 contract(FS, "Store.addNode", "C18", params=P_NAME, setup=_setup_mut, externals=EXT, loops=GROW_LOOP,
+         findings=REGION_ADDNODE,
          requires=["wf(self)"], modifies=[_mod_tree],
          ensures=["wf(self)"] + ["added_node('%s', self, name, result, old(tree_snap(self)))" % p_ for p_ in ADDED_PARTS] + [LABELS],
          raises={"ValueError": [UNCHANGED]}, returns=NODE)
@@ -860,10 +878,11 @@ def _mk_scenario(rng, i, cex, nr):
 
 contract(FS, "Store.add", "C18", params=P_ADD, setup=_setup_scenario, externals=EXT, inline={"Share.changeStore"},
          frame=False, raises={"ValueError": [UNCHANGED]}, replay=dict(make=_mk_scenario, count=1),
+         findings=REGION_ADD,
          note="scenario: empty store, share named 'zz..b' (must be rejected with the store unchanged)")
 contract(FS, "Store.addNode", "C18", params=dict(self=Ref("Store"), name=("const", SCENARIO_NAME)),
          setup=_setup_scenario, externals=EXT, frame=False, raises={"ValueError": [UNCHANGED]},
-         replay=dict(make=_mk_scenario, count=1),
+         replay=dict(make=_mk_scenario, count=1), findings=REGION_ADDNODE,
          note="scenario: empty store, path 'zz..b' (must be rejected with the store unchanged)")
 
 
@@ -917,7 +936,7 @@ contract(FS, "Store.change", "C18", params=P_ADD, setup=_setup_mut, externals=EX
          requires=["wf(self)"], modifies=["share.store", _mod_tree],
          ensures=["wf(self)", "changed('walk', self, share, old(tree_snap(self)))", "changed('others', self, share, old(tree_snap(self)))", LABELS,
                   "result is share", "share.store is self"],
-         raises={"ValueError": [UNCHANGED, "share.store is old(share.store)"]}, returns=Ref("Share"))
+         raises={"ValueError": [UNCHANGED, "id(share.store) == old(id(share.store))"]}, returns=Ref("Share"))
 
 
 # ------------------------------------------------------------------------------------------------ create / createNode
